@@ -12,10 +12,12 @@ pub(crate) fn prune_journal(
     for event in reader {
         let mut event = event?;
         let event = match &mut event.payload {
-            EventPayload::WorkerConnected(worker_id, _)
-            | EventPayload::WorkerLost(worker_id, _) => {
+            EventPayload::WorkerConnected(worker_id, _) => {
                 live_worker_ids.contains(worker_id).then_some(event)
             }
+            // Worker losses are kept: the crash counters of the tasks of live jobs
+            // are restored from them
+            EventPayload::WorkerLost(_, _) => Some(event),
             EventPayload::WorkerOverviewReceived(overview) => {
                 live_worker_ids.contains(&overview.id).then_some(event)
             }
